@@ -93,6 +93,23 @@ def gen_cases(rng, tier, ctx):
                 v.append(c)
                 n += len(chr(c).encode('utf-8'))
             cs.append({'line': 'str_rt %s %s' % (fmt_list(v), fmt_list(gen.ALL48)), 'cat': 'long-utf8', 's': v})
+    # a UTF-8 section that is a Base256 run with a two-byte length field (250 bytes or more: wide characters), left by a mode switch,
+    # then an ASCII-range run of one scheme that ends at a symbol capacity, with short tails: the planner's count of written codewords
+    # after the long run decides the end-of-data rules of the following mode (same idea as gen.constant_cases' b256-then-* family)
+    cp = sorted(set(gen.caps()))
+    for R in ((84,) if tier == 'quick' else (84, 90, 120)):
+        run = [0x65E5] * R                                   # three bytes each
+        used = 2 + 1 + 2 + 3 * R                             # ECI designator, Base256 latch, length field, bytes
+        for cap in [c for c in cp if c > used + 4][: 1 if tier == 'quick' else 2]:
+            for kind, per in (('edifact', 0.75), ('c40', 2.0 / 3), ('text', 2.0 / 3), ('x12', 2.0 / 3)):
+                for delta in range(-4, 3):
+                    k = int((cap - used - 1) / per) + delta
+                    if k <= 0:
+                        continue
+                    body = [rng.choice(gen.ALPH[kind]) for _ in range(k)]
+                    for tail in ([], [97], [97, 98], [126], [49, 50]):
+                        v = run + body + tail
+                        cs.append({'line': 'str_rt %s %s' % (fmt_list(v), fmt_list(gen.DEFAULT)), 'cat': 'utf8-b256-then-' + kind, 's': v})
     # helpers on their whole domains
     for c in range(0, 0x180):
         cs.append({'line': 'utf8_to_latin1 %d' % c, 'cat': 'helper', 's': [c]})
